@@ -391,4 +391,32 @@ theorem ext_random_terminates (p e : Int) (hp : 2 ≤ p) (hfit : p ≤ 214748364
   unfold extRandomD
   rw [polyRandomD_eq]; exact hf
 
+/-! ### copies of GIV_randIter -/
+
+/-- a copy-constructed iterator continues exactly like the original -/
+theorem randiter_copy_continues (bits : Nat) (q : Int) (c : GivIt) (old : Int) :
+    GivIt.draw bits q c.copy old = GivIt.draw bits q c old := rfl
+
+/- full statement (fails on the pinned tree, see the counterexample; holds for the repaired operator, below):
+     ∀ d c old, GivIt.draw bits q (GivIt.assign d c) old = GivIt.draw bits q c old -/
+/-- copy ASSIGNMENT continues like the source when both iterators were built with the same sampling size -/
+theorem randiter_assign_continues_partial (bits : Nat) (q : Int) (d c : GivIt) (h : d.size = c.size) (old : Int) :
+    GivIt.draw bits q (GivIt.assign d c) old = GivIt.draw bits q c old := by
+  simp only [GivIt.draw, GivIt.assign, h]
+
+example : GivIt.draw 32 13 (GivIt.assign ⟨13, 7⟩ ⟨13, givInit 2⟩) 0 = GivIt.draw 32 13 ⟨13, givInit 2⟩ 0 :=
+  randiter_assign_continues_partial 32 13 _ _ rfl 0
+
+/-- … and not otherwise: `GFqDom<int32_t> F(13,1); RandIter c(F, 2, 0), d(F, 979, 2); d = c;` — the first element drawn from `d`
+    is 1, from `c` it is 5 (reproduced on the real code by harness lines `ring 20 d 1 2 9 0 …`; known finding C20-randiter-assign-size) -/
+theorem randiter_assign_counterexample :
+    ¬ ∀ (d c : GivIt) (old : Int), GivIt.draw 32 13 (GivIt.assign d c) old = GivIt.draw 32 13 c old := by
+  intro h
+  have := h ⟨2, givInit 979⟩ ⟨13, givInit 2⟩ 0
+  revert this; decide
+
+/-- with `_size` assigned as well (fixes/C20_5.patch) the assigned-to iterator continues like the source, always -/
+theorem randiter_assignFixed_continues (bits : Nat) (q : Int) (d c : GivIt) (old : Int) :
+    GivIt.draw bits q (GivIt.assignFixed d c) old = GivIt.draw bits q c old := rfl
+
 end Givaro.Props.C20Rings
